@@ -92,3 +92,34 @@ func dynamicServiceDesc(name string, mode int) protoreflect.ServiceDescriptor {
 	}
 	return d.(protoreflect.ServiceDescriptor)
 }
+
+// idemServiceDesc: the same schema with every NO_SIDE_EFFECTS method declared IDEMPOTENT instead
+// (idempotent methods may have side effects: a Connect GET is not allowed for them).
+var idemOnce sync.Once
+var idemFiles = map[string]protoreflect.FileDescriptor{}
+
+func idemServiceDesc(name string) protoreflect.ServiceDescriptor {
+	idemOnce.Do(func() {
+		for _, svc := range []string{libraryService, contentService} {
+			d, err := protoregistry.GlobalFiles.FindDescriptorByName(protoreflect.FullName(svc))
+			if err != nil {
+				panic(err)
+			}
+			fdp := protodesc.ToFileDescriptorProto(d.ParentFile())
+			for _, s := range fdp.Service {
+				for _, m := range s.Method {
+					if m.GetOptions().GetIdempotencyLevel() == descriptorpb.MethodOptions_NO_SIDE_EFFECTS {
+						lvl := descriptorpb.MethodOptions_IDEMPOTENT
+						m.Options.IdempotencyLevel = &lvl
+					}
+				}
+			}
+			fd, err := protodesc.NewFile(fdp, protoregistry.GlobalFiles)
+			if err != nil {
+				panic(err)
+			}
+			idemFiles[svc] = fd
+		}
+	})
+	return idemFiles[name].Services().ByName(protoreflect.FullName(name).Name())
+}
